@@ -302,9 +302,10 @@ def executable_lines():
             stack = [code]
             while stack:
                 c = stack.pop()
-                for _s, _e, ln in c.co_lines():
-                    if ln is not None:
-                        lines.add(ln)
+                if c.co_flags & 0x1:       # function bodies only: module / class-body lines run at import, before the monitor starts
+                    for _s, _e, ln in c.co_lines():
+                        if ln is not None and ln != c.co_firstlineno:
+                            lines.add(ln)
                 stack.extend(k for k in c.co_consts if hasattr(k, "co_lines"))
             out[path[len(_PVDIR):]] = lines
     return out
